@@ -386,8 +386,10 @@ Proof. intros c k s s'. unfold Crash.recv_down.
   - discriminate.
   - destruct (downq s c) as [|x r] eqn:Q.
     + destruct (pend s c); [discriminate|]. intros E; inversion E; subst. split. 2: reflexivity.
-      assert (sumn N (wlink (set_cend s (upd (cend s) c false))) + 2 <= sumn N (wlink s)).
-      { apply sum_strict with (c := c); auto. apply close_cend_le. apply close_cend_lt; auto. }
+      assert (sumn N (wlink (shutdown c (set_cend s (upd (cend s) c false)))) + 2 <= sumn N (wlink s)).
+      { apply sum_strict with (c := c); auto.
+        intros. eapply Nat.le_trans. apply shutdown_le. apply close_cend_le.
+        eapply Nat.le_trans. 2: apply close_cend_lt; auto. apply Nat.add_le_mono_r. apply shutdown_le. }
       simpl. lia.
     + set (s1 := set_downq s (upd (downq s) c r)).
       assert (S1 : sumn N (wlink s1) + 1 <= sumn N (wlink s)).
@@ -493,8 +495,7 @@ Record Inv (s : state) : Prop := {
   I_dead : forall n, alive s n = false ->
              cend s n = false /\ (forall c, is_child n c = true -> pend s c = false);
   I_boss : forall p c, is_child p c = true -> is_client c = false -> alive s p = true -> pend s c = true;
-  I_mgr : forall m, m < N -> kindof m = KManager -> alive s m = true ->
-             cend s m = true /\ (pend s m = false -> In MShutdown (downq s m));
+  I_mgr : forall m, m < N -> kindof m = KManager -> alive s m = true -> cend s m = true;
   I_wrk : forall w, w < N -> kindof w = KWorker -> alive s w = true -> cend s w = true;
   I_blk : forall c, blocked s c <> None -> is_client c = true /\ cend s c = true;
   I_cli : forall c, c < N -> is_client c = true -> alive s c = true }.
@@ -517,16 +518,14 @@ Lemma Inv_upd : forall s s',
   (forall x, is_client x = false -> pend s' x = pend s x) ->
   (forall x, pend s' x = true -> pend s x = true) ->
   (forall x, cend s' x = true -> cend s x = true) ->
-  (forall m, kindof m = KManager -> In MShutdown (downq s m) -> In MShutdown (downq s' m)) ->
   (forall c, blocked s' c <> None -> is_client c = true /\ cend s' c = true) ->
   Inv s -> Inv s'.
-Proof. intros s s' Ha Hc Hp Hp' Hc' Hd Hb I. constructor.
+Proof. intros s s' Ha Hc Hp Hp' Hc' Hb I. constructor.
   - intros n Hn. rewrite Ha in Hn. destruct (I_dead I n Hn) as [A B]. split.
     + destruct (cend s' n) eqn:E; auto. apply Hc' in E. congruence.
     + intros c Hch. destruct (pend s' c) eqn:E; auto. apply Hp' in E. rewrite (B c Hch) in E. discriminate.
   - intros p c Hch Hcl Hal. rewrite Hp; auto. rewrite Ha in Hal. eapply I_boss; eauto.
-  - intros m Hm K Hal. rewrite Ha in Hal. destruct (I_mgr I Hm K Hal) as [A B].
-    pose proof (mgr_not_client _ K). rewrite Hc, Hp by auto. split; auto.
+  - intros m Hm K Hal. rewrite Ha in Hal. pose proof (mgr_not_client _ K). rewrite Hc by auto. eapply I_mgr; eauto.
   - intros w Hw K Hal. rewrite Ha in Hal. rewrite Hc. eapply I_wrk; eauto. apply wrk_not_client; auto.
   - auto.
   - intros c Hc0 Hcl. rewrite Ha. eapply I_cli; eauto.
@@ -537,11 +536,9 @@ Lemma Inv_kill : forall s s' n,
   (forall x, alive s' x = if Nat.eqb x n then false else alive s x) ->
   (forall x, cend s' x = if Nat.eqb x n then false else cend s x) ->
   (forall c, pend s' c = if is_child n c then false else pend s c) ->
-  (forall m, m <> n -> kindof m = KManager -> In MShutdown (downq s m) -> In MShutdown (downq s' m)) ->
-  (forall m, is_child n m = true -> kindof m = KManager -> alive s m = true -> In MShutdown (downq s' m)) ->
   (forall c, blocked s' c = blocked s c) ->
   Inv s -> Inv s'.
-Proof. intros s s' n Hn Ha Hc Hp Hd Hd' Hb I. constructor.
+Proof. intros s s' n Hn Ha Hc Hp Hb I. constructor.
   - intros x Hx. rewrite Ha in Hx. rewrite Hc. destruct (Nat.eqb x n) eqn:E.
     + apply Nat.eqb_eq in E; subst. split; auto. intros c Hch. rewrite Hp, Hch. auto.
     + destruct (I_dead I x Hx) as [A B]. split; auto. intros c Hch. rewrite Hp. rewrite (B c Hch). destruct (is_child n c); auto.
@@ -550,8 +547,7 @@ Proof. intros s s' n Hn Ha Hc Hp Hd Hd' Hb I. constructor.
     + apply is_child_par in Hch. apply is_child_par in E2. apply Nat.eqb_neq in E. destruct Hch, E2. congruence.
     + eapply I_boss; eauto.
   - intros m Hm K Hal. rewrite Ha in Hal. destruct (Nat.eqb m n) eqn:E; [discriminate|].
-    destruct (I_mgr I Hm K Hal) as [A B]. rewrite Hc, E. split; auto. apply Nat.eqb_neq in E.
-    rewrite Hp. destruct (is_child n m) eqn:E2; intros; auto.
+    rewrite Hc, E. eapply I_mgr; eauto.
   - intros w Hw K Hal. rewrite Ha in Hal. destruct (Nat.eqb w n) eqn:E; [discriminate|].
     rewrite Hc, E. eapply I_wrk; eauto.
   - intros c Hbl. rewrite Hb in Hbl. destruct (I_blk I c Hbl) as [A B]. split; auto.
@@ -565,48 +561,37 @@ Ltac inapp := repeat match goal with
   end; auto.
 
 Lemma Inv_shutdown : forall p s, Inv s -> alive s p = true -> is_client p = false -> Inv (shutdown p s).
-Proof. intros p s I Hal Hcl. apply Inv_kill with (s := s) (n := p); auto; try (intros; reflexivity).
-  - intros m _ K H. cbn [Crash.shutdown downq set_downq set_pend send_up set_upq set_cend set_alive]. inapp.
-  - intros m Hch K Ham. cbn [Crash.shutdown downq set_downq set_pend send_up set_upq set_cend set_alive].
-    rewrite Hch, (mgr_not_client _ K), (I_boss I p m Hch (mgr_not_client _ K) Hal). simpl. apply in_or_app. right. simpl. auto.
-Qed.
+Proof. intros p s I Hal Hcl. apply Inv_kill with (s := s) (n := p); auto; try (intros; reflexivity). Qed.
 
 (* a manager reads SHUTDOWN from above: the head of its own FIFO is consumed, then it shuts down *)
-Lemma Inv_shutdown_consume : wf_topo = true -> forall c r s, Inv s -> alive s c = true -> is_client c = false -> 0 < c -> c < N ->
+Lemma Inv_shutdown_consume : forall c r s, Inv s -> is_client c = false ->
   Inv (shutdown c (set_downq s (upd (downq s) c r))).
-Proof. intros WF c r s I Hal Hcl C0 CN. apply Inv_kill with (s := s) (n := c); auto; try (intros; reflexivity).
-  - intros m Hne K H. cbn [Crash.shutdown downq set_downq set_pend send_up set_upq set_cend set_alive pend].
-    unfold upd. apply Nat.eqb_neq in Hne. rewrite Hne. inapp.
-  - intros m Hch K Ham. cbn [Crash.shutdown downq set_downq set_pend send_up set_upq set_cend set_alive pend].
-    assert (m <> c). { intro; subst. destruct (is_child_par _ _ Hch) as [P _]. pose proof (wf_par_lt WF C0 CN). lia. }
-    unfold upd. apply Nat.eqb_neq in H. rewrite H.
-    rewrite Hch, (mgr_not_client _ K), (I_boss I c m Hch (mgr_not_client _ K) Hal). simpl. apply in_or_app. right. simpl. auto.
-Qed.
+Proof. intros c r s I Hcl. apply Inv_kill with (s := s) (n := c); auto; try (intros; reflexivity). Qed.
+
+(* a manager reads EOF from above: it closes that connection and shuts down *)
+Lemma Inv_shutdown_lostboss : forall c s, Inv s -> is_client c = false ->
+  Inv (shutdown c (set_cend s (upd (cend s) c false))).
+Proof. intros c s I Hcl. apply Inv_kill with (s := s) (n := c); auto; try (intros; reflexivity).
+  intros x. cbn [Crash.shutdown cend set_downq set_pend send_up set_upq set_cend set_alive]. unfold upd.
+  destruct (Nat.eqb x c); auto. Qed.
 
 Lemma Inv_shutdown_eof : forall p c s, Inv s -> alive s p = true -> is_client p = false ->
   is_child p c = true -> cend s c = false -> c < N ->
   Inv (shutdown p (set_pend s (upd (pend s) c false))).
 Proof. intros p c s I Hal Hcl Hch Hce HcN. apply Inv_kill with (s := s) (n := p); auto; try (intros; reflexivity).
-  - intros x. cbn [Crash.shutdown pend set_downq set_pend send_up set_upq set_cend set_alive].
-    destruct (is_child p x) eqn:E; auto. unfold upd. destruct (Nat.eqb x c) eqn:E2; auto. apply Nat.eqb_eq in E2. subst. congruence.
-  - intros m _ K H. cbn [Crash.shutdown downq set_downq set_pend send_up set_upq set_cend set_alive]. inapp.
-  - intros m Hm K Ham. cbn [Crash.shutdown downq set_downq set_pend send_up set_upq set_cend set_alive pend].
-    assert (m <> c). { intro; subst. destruct (is_child_par _ _ Hm) as [_ [_ HN]]. destruct (I_mgr I HN K Ham). congruence. }
-    rewrite Hm, (mgr_not_client _ K). unfold upd. apply Nat.eqb_neq in H. rewrite H.
-    rewrite (I_boss I p m Hm (mgr_not_client _ K) Hal). simpl. apply in_or_app. right. simpl. auto.
+  intros x. cbn [Crash.shutdown pend set_downq set_pend send_up set_upq set_cend set_alive].
+  destruct (is_child p x) eqn:E; auto. unfold upd. destruct (Nat.eqb x c) eqn:E2; auto. apply Nat.eqb_eq in E2. subst. congruence.
 Qed.
 
-Lemma Inv_die : forall n s, Inv s -> is_client n = false ->
-  (forall m, is_child n m = true -> kindof m <> KManager) -> Inv (die n s).
-Proof. intros n s I Hcl Hm. apply Inv_kill with (s := s) (n := n); auto; try (intros; reflexivity).
-  intros m Hch K. exfalso. eapply Hm; eauto. Qed.
+Lemma Inv_die : forall n s, Inv s -> is_client n = false -> Inv (die n s).
+Proof. intros n s I Hcl. apply Inv_kill with (s := s) (n := n); auto; try (intros; reflexivity). Qed.
 
 Ltac triv_upd I := apply Inv_upd with (1 := fun _ => eq_refl); auto; try (intros; reflexivity); try (intros; assumption);
   try (intros c Hb; exact (I_blk I c Hb)).
 
 Lemma Inv_send_down : forall s c m, Inv s -> Inv (send_down s c m).
 Proof. intros s c m I. apply Inv_upd with (s := s); auto; try (intros; reflexivity).
-  intros x K H. cbn [downq send_down set_downq]. inapp. intros x Hb. exact (I_blk I x Hb). Qed.
+  intros x Hb. exact (I_blk I x Hb). Qed.
 Lemma Inv_send_up : forall s c m, Inv s -> Inv (send_up s c m).
 Proof. intros s c m I. apply Inv_upd with (s := s); auto; try (intros; reflexivity). intros x Hb. exact (I_blk I x Hb). Qed.
 Lemma Inv_set_tasks : forall s f, Inv s -> Inv (set_tasks s f).
@@ -629,7 +614,7 @@ Qed.
 Lemma Inv_sys_error : forall p s, Inv s -> alive s p = true -> is_client p = false -> Inv (sys_error p s).
 Proof. intros p s I Hal Hcl. unfold Crash.sys_error. apply Inv_shutdown; auto.
   apply Inv_upd with (s := s); auto; try (intros; reflexivity).
-  intros x K H. cbn [downq set_downq]. inapp. intros x Hb. exact (I_blk I x Hb). Qed.
+  intros x Hb. exact (I_blk I x Hb). Qed.
 
 Lemma Inv_client_gone : forall p c s, Inv s -> alive s p = true -> is_client p = false -> is_client c = true ->
   Inv (client_gone p c s).
@@ -711,10 +696,8 @@ Proof. intros WF c s s' I. unfold Crash.recv_up.
 Qed.
 
 (* consuming the head of downq c (or k arrived items at a client) *)
-Lemma Inv_consume_down : forall s c q, Inv s ->
-  (kindof c = KManager -> In MShutdown (downq s c) -> In MShutdown q) -> Inv (set_downq s (upd (downq s) c q)).
-Proof. intros s c q I H. apply Inv_upd with (s := s); auto; try (intros; reflexivity).
-  intros m K Hin. cbn [downq set_downq]. unfold upd. destruct (Nat.eqb m c) eqn:E; auto. apply Nat.eqb_eq in E; subst. auto.
+Lemma Inv_consume_down : forall s c q, Inv s -> Inv (set_downq s (upd (downq s) c q)).
+Proof. intros s c q I. apply Inv_upd with (s := s); auto; try (intros; reflexivity).
   intros x Hb. exact (I_blk I x Hb). Qed.
 
 Lemma wf_leaf_worker : wf_topo = true -> forall w m, kindof w = KWorker -> is_child w m = true -> False.
@@ -736,31 +719,28 @@ Proof. intros WF c k s s' I. unfold Crash.recv_down.
     assert (Hcl : is_client c = true) by (unfold Crash.is_client; rewrite K; auto).
     unfold Crash.client_recv. destruct (blocked s c) as [r|]; [|discriminate].
     destruct (0 <? k); [|discriminate]. destruct (arrived _ _ _) as [[arr eof]|]; [|discriminate].
-    assert (I1 : Inv (set_downq s (upd (downq s) c (skipn k (downq s c))))) by (apply Inv_consume_down; auto; congruence).
+    assert (I1 : Inv (set_downq s (upd (downq s) c (skipn k (downq s c))))) by (apply Inv_consume_down; auto).
     destruct (crecv arr eof None); [| |destruct (answer r m)]; intros E; inversion E; subst; auto.
     apply Inv_client_raise; auto. apply Inv_client_return; auto. apply Inv_client_raise; auto.
   - discriminate.
   - (* manager *)
-    destruct (I_mgr I CN K Ha) as [_ MS].
+    assert (Hcl : is_client c = false) by (apply mgr_not_client; auto).
     destruct (downq s c) as [|x r] eqn:Q.
-    + destruct (pend s c) eqn:P; [discriminate|]. exfalso. apply MS; auto.
+    + destruct (pend s c) eqn:P; [discriminate|]. intros E; inversion E; subst s'; clear E.
+      apply (@Inv_shutdown_lostboss c s); auto.
     + intros E; inversion E; subst s'; clear E.
-      assert (Hcl : is_client c = false) by (apply mgr_not_client; auto).
-      destruct x; try (apply Inv_consume_down; auto; rewrite Q; simpl; intros _ [X|X]; [discriminate|auto]).
-      apply (Inv_shutdown_consume WF r I Ha Hcl C0 CN).
+      destruct x; try (apply Inv_consume_down; auto).
+      apply (@Inv_shutdown_consume c r s); auto.
   - (* worker *)
     assert (Hcl : is_client c = false) by (apply wrk_not_client; auto).
-    assert (Leaf : forall m, is_child c m = true -> kindof m <> KManager) by (intros m Hm _; eapply wf_leaf_worker; eauto).
     destruct (downq s c) as [|x r] eqn:Q.
     + destruct (pend s c) eqn:P; [discriminate|]. intros E; inversion E; subst s'; clear E.
       apply (@Inv_die c s); auto.
     + intros E; inversion E; subst s'; clear E.
-      assert (I1 : Inv (set_downq s (upd (downq s) c r))) by (apply Inv_consume_down; auto; congruence).
+      assert (I1 : Inv (set_downq s (upd (downq s) c r))) by (apply Inv_consume_down; auto).
       destruct x; auto. apply (@Inv_die c _); auto.
 Qed.
 
-Notation good_crash := (good_crash T).
-Notation good_event := (good_event T).
 Notation init := (init T).
 
 Lemma all_below_spec : forall n f, all_below n f = true -> forall i, i < n -> f i = true.
@@ -772,10 +752,6 @@ Proof. induction n; simpl; intros. lia. apply orb_false_iff in H. destruct H.
 Lemma all_below_intro : forall n f, (forall i, i < n -> f i = true) -> all_below n f = true.
 Proof. induction n; simpl; intros; auto. rewrite H by lia. rewrite IHn; auto. Qed.
 
-Lemma good_crash_no_mgr : forall n m, good_crash n = true -> is_child n m = true -> kindof m <> KManager.
-Proof. intros n m G Hch K. destruct (is_child_par _ _ Hch) as [_ [_ HN]].
-  pose proof (@all_below_spec _ _ G m HN) as X. simpl in X. rewrite Hch, K in X. discriminate. Qed.
-
 Lemma Inv_call : forall c r k s s', Inv s -> call c r k s = Some s' -> Inv s'.
 Proof. intros c r k s s' I. unfold Crash.call.
   destruct (_ && _ && _ && _ && _ && _) eqn:C; [|discriminate].
@@ -784,7 +760,7 @@ Proof. intros c r k s s' I. unfold Crash.call.
   - destruct (budget s) as [|b]; [discriminate|].
     destruct (arrived _ _ _) as [[arr eof]|]; [|discriminate].
     assert (I1 : Inv (set_downq s (upd (downq s) c (skipn k (downq s c))))).
-    { apply Inv_consume_down; auto. intros K. apply client_kind in Hcl. congruence. }
+    { apply Inv_consume_down; auto. }
     destruct (cdrain arr && negb eof).
     + assert (I2 : Inv (set_budget (send_up (set_downq s (upd (downq s) c (skipn k (downq s c)))) c (req_msg r)) b))
         by (apply Inv_set_budget; apply Inv_send_up; auto).
@@ -802,17 +778,15 @@ Proof. intros c r k s s' I. unfold Crash.call.
   - intros E; inversion E; subst. apply Inv_client_raise; auto.
 Qed.
 
-Lemma Inv_step : wf_topo = true -> forall s e s', Inv s -> good_event e = true -> step s e = Some s' -> Inv s'.
-Proof. intros WF s e s' I G H. destruct e as [n|up c k|c r k|w t|up c tag|w]; simpl in H, G.
+Lemma Inv_step : wf_topo = true -> forall s e s', Inv s -> step s e = Some s' -> Inv s'.
+Proof. intros WF s e s' I H. destruct e as [n|up c k|c r k|w t|up c tag|w]; simpl in H.
   6: { destruct (_ && _ && _) eqn:C; [|discriminate]. inversion H; subst s'; clear H.
     apply andb_true_iff in C. destruct C as [C _]. apply andb_true_iff in C. destruct C as [_ C].
     destruct (kindof w) eqn:K; try discriminate.
-    apply Inv_die. apply Inv_send_up; auto. apply wrk_not_client; auto.
-    intros m Hm _. eapply wf_leaf_worker; eauto. }
+    apply Inv_die. apply Inv_send_up; auto. apply wrk_not_client; auto. }
   - unfold crashable in H. destruct (_ && _) eqn:C; [|discriminate]. inversion H; subst.
     apply andb_true_iff in C. destruct C as [C _]. apply andb_true_iff in C. destruct C as [_ C].
     apply Inv_die; auto. unfold Crash.is_client. destruct (kindof n); auto; discriminate.
-    intros. eapply good_crash_no_mgr; eauto.
   - destruct up. eapply Inv_recv_up; eauto. eapply Inv_recv_down; eauto.
   - eapply Inv_call; eauto.
   - destruct (budget s); [discriminate|]. destruct (_ && _ && _ && _); [|discriminate]. inversion H; subst.
@@ -830,7 +804,7 @@ Proof. intros WF b. constructor; simpl.
     + intros c Hch. exfalso. destruct (is_child_par _ _ Hch) as [P [C0 CN]]. pose proof (wf_par_lt WF C0 CN). lia.
   - intros p c Hch _ _. destruct (is_child_par _ _ Hch) as [P [C0 CN]]. apply Nat.ltb_lt in C0, CN. rewrite C0, CN. auto.
   - intros m Hm K _. assert (0 < m). { destruct m; try lia. rewrite (wf_zero WF) in K. discriminate. }
-    apply Nat.ltb_lt in H, Hm. rewrite H, Hm. simpl. split; auto. discriminate.
+    apply Nat.ltb_lt in H, Hm. rewrite H, Hm. auto.
   - intros w Hw K _. assert (0 < w). { destruct w; try lia. rewrite (wf_zero WF) in K. discriminate. }
     apply Nat.ltb_lt in H, Hw. rewrite H, Hw. auto.
   - intros c H. congruence.
@@ -840,14 +814,14 @@ Qed.
 (* reachable states: any events, crashes restricted to workers and level-1 managers *)
 Inductive reach : state -> Prop :=
 | reach_init : forall b, reach (init b)
-| reach_step : forall s e s', reach s -> good_event e = true -> step s e = Some s' -> reach s'.
+| reach_step : forall s e s', reach s -> step s e = Some s' -> reach s'.
 
 Lemma reach_Inv : wf_topo = true -> forall s, reach s -> Inv s.
 Proof. intros WF s R. induction R. apply Inv_init; auto. eapply Inv_step; eauto. Qed.
 
-Lemma reach_run : forall es s s', reach s -> forallb good_event es = true -> run s es = Some s' -> reach s'.
-Proof. induction es as [|e es IH]; simpl; intros s s' R G H. inversion H; subst; auto.
-  apply andb_true_iff in G. destruct G as [G1 G2]. destruct (step s e) as [s1|] eqn:E; [|discriminate].
+Lemma reach_run : forall es s s', reach s -> run s es = Some s' -> reach s'.
+Proof. induction es as [|e es IH]; simpl; intros s s' R H. inversion H; subst; auto.
+  destruct (step s e) as [s1|] eqn:E; [|discriminate].
   apply IH with (s := s1); auto. eapply reach_step; eauto. Qed.
 
 (* ---- progress: a quiescent state after a crash is completely shut down ----------------------- *)
@@ -929,7 +903,7 @@ Proof. intros WF s I Q H0. induction n as [n IH] using lt_wf_ind. intros HN Hcl.
   destruct (I_dead I _ Hpd) as [_ Hpc]. pose proof (Hpc _ (is_child_intro (Nat.lt_0_succ n) HN)) as Hp.
   destruct (quiescent_spec _ Q HN) as [_ D].
   destruct (nonclient_kind WF (Nat.lt_0_succ n) HN Hcl) as [Km|Kw].
-  - destruct (I_mgr I HN Km Ha) as [Hc _]. apply (@recv_down_enabled_rt (S n) s); auto. lia.
+  - pose proof (I_mgr I HN Km Ha) as Hc. apply (@recv_down_enabled_rt (S n) s); auto. lia.
   - pose proof (I_wrk I HN Kw Ha) as Hc. apply (@recv_down_enabled_rt (S n) s); auto. lia.
 Qed.
 
@@ -1158,7 +1132,8 @@ Proof. intros c k s s' R. unfold Crash.recv_down.
       * apply RInv_client_raise; auto.
   - discriminate.
   - destruct (downq s c) as [|x r] eqn:Q.
-    + destruct (pend s c); [discriminate|]. intros E; inversion E; subst. apply (@RInv_set_cend s); auto.
+    + destruct (pend s c); [discriminate|]. intros E; inversion E; subst.
+      apply (@RInv_shutdown c (set_cend s (upd (cend s) c false))). apply RInv_set_cend; auto.
     + intros E; inversion E; subst s'; clear E.
       assert (R1 : RInv (set_downq s (upd (downq s) c r))) by (apply RInv_consume_down; auto; intros; rewrite Q; simpl; auto).
       destruct x; auto. apply (@RInv_shutdown c); auto.
@@ -1268,7 +1243,8 @@ Proof. intros c k s s'. unfold Crash.recv_down. destruct (_ && _ && _ && _); [|d
     destruct (crecv arr eof None); [| |destruct (answer r m)]; intros E; inversion E; subst; apply ale_same; reflexivity.
   - discriminate.
   - destruct (downq s c) as [|x r].
-    + destruct (pend s c); [discriminate|]. intros E; inversion E; subst. apply ale_same; reflexivity.
+    + destruct (pend s c); [discriminate|]. intros E; inversion E; subst.
+      eapply ale_trans. apply (@ale_shutdown c (set_cend s (upd (cend s) c false))). apply ale_same; reflexivity.
     + intros E; inversion E; subst. destruct x; try (apply ale_same; reflexivity).
       apply (@ale_shutdown c (set_downq s (upd (downq s) c r))).
   - destruct (downq s c) as [|x r].
@@ -1312,18 +1288,17 @@ Proof. unfold Crash.quiescent. intros s H. apply negb_false_iff in H. apply any_
 
 (* ---- the three C14 theorems ------------------------------------------------------------------ *)
 Theorem crash_propagates : wf_topo = true -> forall s n e0 s1,
-  reach s -> (e0 = ECrash n /\ good_crash n = true \/ e0 = EFail n) -> step s e0 = Some s1 ->
-  forall es s2, forallb good_event es = true -> run s1 es = Some s2 ->
+  reach s -> (e0 = ECrash n \/ e0 = EFail n) -> step s e0 = Some s1 ->
+  forall es s2, run s1 es = Some s2 ->
     count_recv es + variant s2 <= variant s1 /\
     (quiescent s2 = true -> all_down s2 = true) /\
     (quiescent s2 = false -> exists up c k s3, step s2 (ERecv up c k) = Some s3).
-Proof. intros WF s n e0 s1 R G C es s2 GE RUN.
-  assert (R1 : reach s1).
-  { apply reach_step with (s := s) (e := e0); auto. destruct G as [[G1 G2]|G]; subst; auto. }
+Proof. intros WF s n e0 s1 R G C es s2 RUN.
+  assert (R1 : reach s1) by (apply reach_step with (s := s) (e := e0); auto).
   assert (R2 : reach s2) by (eapply reach_run; eauto).
   split. apply run_variant; auto. split; [|apply not_quiescent].
   intros Q. apply progress; auto. apply reach_Inv; auto.
-  exists n. destruct G as [[G1 G2]|G]; subst e0; simpl in C.
+  exists n. destruct G as [G|G]; subst e0; simpl in C.
   - destruct (crashable T n && alive s n) eqn:E; [|discriminate]. inversion C; subst s1.
     apply andb_true_iff in E. destruct E as [E _]. unfold crashable in E. apply andb_true_iff in E. destruct E as [E1 E2].
     apply Nat.ltb_lt in E1. split; auto. split.
